@@ -23,6 +23,9 @@ from sympy.polys.domains import ZZ
 from sympy.polys.rings import PolyElement, ring as _sring
 
 
+TOLERANCE_CONSTANTS = (1e-8, 1e-15)
+
+
 class EngineGap(Exception):
     """The engine cannot model an operation: the path is *undecided*, never a violation."""
 
@@ -51,6 +54,9 @@ class SymRing:
         # memo for leaf generators (so that the same sqrt argument gives the same generator)
         self.memo = {}
         self.log = []
+        # polynomials that occurred as denominators of matrix inverses / divisions: cheap exact-division
+        # candidates used to keep rational functions reduced without multivariate gcds
+        self.den_factors = []
 
     def sym(self, name):
         return Sym(self.gens[self.index[name]], self.one)
@@ -63,12 +69,24 @@ class SymRing:
         self.meta[k] = dict(kind=kind, **meta)
         return Sym(self.gens[k], self.one)
 
+    def note_den_factor(self, p):
+        if p.is_ground or len(p) > 400:
+            return
+        p = _prim(p) if not _has_i(p) else p
+        for q in self.den_factors:
+            if q == p:
+                return
+        self.den_factors.append(p)
+        if len(self.den_factors) > 12:
+            self.den_factors.pop(0)
+
     def reset_spares(self):
         self._next_spare = 1 + len(self.user_names)
         self.meta = {}
         self.relations = []
         self.facts = []
         self.memo = {}
+        self.den_factors = []
 
 
 _CUR: SymRing | None = None
@@ -174,6 +192,9 @@ class Sym:
             return Sym(R.R(v.numerator), R.R(v.denominator))
         if isinstance(v, (float, np.floating)):
             v = float(v)
+            if v in TOLERANCE_CONSTANTS:
+                # stated idealisation: the library's tolerances (EQ_TOL_ABS = 1e-8, EQ_TOL_REL = 1e-15) are 0
+                return Sym(R.zero, R.one)
             if math.isnan(v):
                 return Sym(R.zero, R.one, "nan")
             if math.isinf(v):
@@ -206,6 +227,23 @@ class Sym:
             return Sym(n, d)
         if d.LC < 0:
             n, d = -n, -d
+        R = _CUR
+        if R is not None and R.den_factors:
+            for f in R.den_factors:
+                if len(f) > len(d):
+                    continue
+                while True:
+                    try:
+                        d2 = d.exquo(f)
+                    except Exception:
+                        break
+                    try:
+                        n2 = n.exquo(f)
+                    except Exception:
+                        break
+                    n, d = n2, d2
+                    if d.is_ground:
+                        return Sym._mk(n, d)
         if len(n) * len(d) <= _CANCEL_LIMIT:
             if n == d:
                 return Sym(n.ring.one, n.ring.one)
@@ -387,6 +425,20 @@ class Sym:
 
     def __abs__(self):
         return sym_abs(self)
+
+    def __mod__(self, k):
+        if self.is_const() and isinstance(k, (int, np.integer)):
+            r, i = self.const_value()
+            if i == 0:
+                return Sym.const(r % int(k))
+        raise EngineGap("modulo of a symbolic value")
+
+    def __floordiv__(self, k):
+        if self.is_const() and isinstance(k, (int, np.integer)):
+            r, i = self.const_value()
+            if i == 0:
+                return Sym.const(r // int(k))
+        raise EngineGap("floor division of a symbolic value")
 
     def conjugate(self):
         if self.special:
@@ -645,6 +697,8 @@ def _div(a, b):
             return Sym(R.zero, R.one, "inf")
     if not a.n:
         return a
+    if not b.is_const() and not _has_i(b.n):
+        R.note_den_factor(b.n)
     inv = b._inv()
     return a * inv
 
